@@ -14,8 +14,10 @@ CONDS = [
     Cond('attr_name_case_ok', 'attribute-name selectors vs a symbolic-case attribute name in the document',
          '8 selector spellings x 3 kinds', timeout={'quick': 100, 'thorough': 900}),
     Cond('value_case_ok', 'attribute values: case-sensitive except `type` in HTML; i / s flags override; XML/XHTML always '
-         'sensitive unless i', '16 selectors (all operators, t and type, flags) x symbolic-case value x 3 kinds',
+         'sensitive unless i', '24 selectors (all operators, t and type, names that merely contain "type", id/class as attributes, flags) x symbolic-case value x 3 kinds',
          timeout={'quick': 100, 'thorough': 900}, parts={'quick': 4, 'thorough': 8}),
+    Cond('id_class_case_ok', '#id and .class compare exactly in HTML, XHTML and XML (symbolic case masks on the document side)',
+         '5 selectors x 3 kinds', timeout={'quick': 100, 'thorough': 300}),
     Cond('parsed_case_ok', '<AB TT="Ab" Type="Ab"> parsed by html.parser, lxml, html5lib and lxml-xml against 17 selector '
          'spellings with expected HTML / XML outcomes', '17 selectors x 4 parsers', timeout={'quick': 60, 'thorough': 120}),
     Cond('html_only_ok', 'the 17 pseudo-class spellings documented as HTML-only select nothing in 3 XML documents, alone '
